@@ -1325,3 +1325,22 @@ TECHNIQUE = "Coq proof (structural induction on plural ASTs + finite reflection 
 # ---- model = code theorems for the locale session (appended) ----
 TRUSTED = [t for t in TRUSTED] + ["model_is_code_normalize_locale / _locale_load / _locale_cache_transparent / _locale / _set_locale / _get_locale / _format_diff: Locale.normalize_locale, Locale.load, helpers.locale, set_locale, get_locale and format_diff are translated from /repo on every run (Gen/HumanizeGlue.v, tools/vlib/gens/g18_humanize_glue.py; pendulum._LOCALE and Locale._cache threaded as explicit state) and proved equal to the steps of Model/LocaleSession.v (SSet, SGet, SLoad, SFmt) for every state, cache satisfying cache_ok and argument; the transparency of Locale._cache is now a THEOREM (cache_ok holds of the empty cache and is preserved), not an assumption. By hand: coq/Model/HumanizeObj.v (str = code points, the dict as an association list, re.match of the one locale pattern, existence of a shipped locale directory and import_module = the generated tables); recognised shapes: the existence loop of Locale.load -> a single test (its first iteration raises), set_locale's two statements, the f-strings. STILL hand-written + pinned: DifferenceFormatter.format and Locale.get/translation/plural/ordinal/ordinalize (Model/DiffFormat.v, Model/LocaleBase.v), Duration.in_words / Interval.in_words, DateTime.diff_for_humans, Formatter.format's locale default"]
 LEVEL_NOTE = LEVEL_NOTE + " " + "model_is_code_normalize_locale / _locale_load / _locale_cache_transparent / _locale / _set_locale / _get_locale / _format_diff: Locale.normalize_locale, Locale.load, helpers.locale, set_locale, get_locale and format_diff are translated from /repo on every run (Gen/HumanizeGlue.v, tools/vlib/gens/g18_humanize_glue.py; pendulum._LOCALE and Locale._cache threaded as explicit state) and proved equal to the steps of Model/LocaleSession.v (SSet, SGet, SLoad, SFmt) for every state, cache satisfying cache_ok and argument; the transparency of Locale._cache is now a THEOREM (cache_ok holds of the empty cache and is preserved), not an assumption. By hand: coq/Model/HumanizeObj.v (str = code points, the dict as an association list, re.match of the one locale pattern, existence of a shipped locale directory and import_module = the generated tables); recognised shapes: the existence loop of Locale.load -> a single test (its first iteration raises), set_locale's two statements, the f-strings. STILL hand-written + pinned: DifferenceFormatter.format and Locale.get/translation/plural/ordinal/ordinalize (Model/DiffFormat.v, Model/LocaleBase.v), Duration.in_words / Interval.in_words, DateTime.diff_for_humans, Formatter.format's locale default" + "."
+
+
+# ---- model = code theorems for in_words / diff_for_humans / Locale.plural, ordinal, ordinalize (appended) ----
+_MIC2 = ("model_is_code_in_words_duration / _in_words_interval / in_words_interval_is_in_words_duration / model_is_code_diff_for_humans / _diff_for_humans_date / "
+         "diff_for_humans_model_is_DiffHumans / model_is_code_locale_plural / _locale_ordinal / _locale_ordinalize: Duration.in_words, Interval.in_words, "
+         "DateTime.diff_for_humans, Date.diff_for_humans, Locale.plural, Locale.ordinal and Locale.ordinalize are now translated from /repo on every run "
+         "(Gen/HumanizeGlue.v; state and Locale._cache threaded) and proved equal to the SWords step of Model/LocaleSession.v (DiffFormat.in_words on the loaded "
+         "locale), to the wiring other/is_now/absolute/locale -> diff_comps -> the SFmt step (with an explicit other and a loading locale that is "
+         "Model/DiffHumans.v diff_for_humans), and to LocaleBase.lplural / lordinal / DiffFormat.ordinalize. Interval.in_words loads "
+         "`locale or get_locale()`, Duration.in_words tests `locale is None`: the two are proved the same function except for locale='' (where the Interval uses the "
+         "configured locale; '' is outside the session streams, see ASSUMPTIONS). Recognised shapes: the `intervals` literal -> a generated list; the for loop -> "
+         "the left fold (hand template) of its TRANSLATED body; parts.append on the fresh local list -> functional append; self.now()/self.today() -> an explicit "
+         "clock input; `count: int | str = 0` -> str(0) (format uses its argument through str only). By hand (coq/Model/HumanizeObj.v): the receiver of in_words "
+         "is its seven component values and .microseconds; a dotted key f'units.{u}.{c}' / f'custom.ordinal.{c}' is its components and Locale.get / "
+         "Locale.translation's split-and-walk is LocaleBase.lookup (NOT translated, nor Locale._key_cache); str.format on a template (LocaleBase.node_format); "
+         "f'{abs(us) / 1e6:.2f}' (DiffFormat.fmt2); self.diff(other) = DiffHumans.diff_comps. STILL hand-written + pinned in C18: DifferenceFormatter.format's "
+         "key construction (Model/DiffFormat.v format; its unit chain is Gen.Locales.gen_pick), Locale.get / translation, Formatter.format's locale default and tokens")
+TRUSTED = [t for t in TRUSTED] + [_MIC2]
+LEVEL_NOTE = LEVEL_NOTE + " " + _MIC2 + "."
